@@ -61,14 +61,50 @@ def rows_alignment_obligations(prefix, rows, expected, site):
     return obs
 
 
+def obs_space(kind, OD):
+    box = spaces.Box(-1, 1, (OD,))
+    if kind == "tuple":
+        return spaces.Tuple((box, spaces.Box(-1, 1, (OD,))))
+    if kind == "dict":
+        return spaces.Dict({"k0": box, "k1": spaces.Box(-1, 1, (OD,))})
+    return box
+
+
+def mk_obs(v, name, lead, kind, OD):
+    if kind == "tuple":
+        return tuple(v.array(f"{name}.c{k}", lead + (OD,)) for k in range(2))
+    if kind == "dict":
+        return {f"k{k}": v.array(f"{name}.k{k}", lead + (OD,)) for k in range(2)}
+    return v.array(name, lead + (OD,))
+
+
+def comps(o):
+    if isinstance(o, dict):
+        return [o[k] for k in sorted(o)]
+    if isinstance(o, (tuple, list)):
+        return list(o)
+    return [o]
+
+
+def obs_row(o, *idx):
+    out = []
+    for c in comps(o):
+        out += elems(c[idx] if idx else c)
+    return out
+
+
+def nrows(o):
+    return comps(o)[0].shape[0]
+
+
 def flat_rows(*cols):
     """cols: tensors with the same leading dim -> list of tuples of scalars per row"""
-    n = cols[0].shape[0]
+    n = nrows(cols[0])
     rows = []
     for i in range(n):
         r = []
         for c in cols:
-            r += elems(c[i])
+            r += obs_row(c, i)
         rows.append(tuple(r))
     return rows
 
@@ -83,16 +119,16 @@ class PPOGae(Case):
     outside = ("minibatch loop, policy/value losses, optimiser (after the capture point)",)
     site = "PPO.learn/gae"
 
-    def __init__(self, T, E, OD=1, vectorized=True):
-        self.T, self.E, self.OD, self.vec = T, E, OD, vectorized
-        self.name = f"ppo-gae-T{T}-E{E}-od{OD}" + ("" if vectorized else "-nonvec")
-        self.bounds = {"T": T, "num_envs": E, "obs_dim": OD, "vectorized": vectorized,
+    def __init__(self, T, E, OD=1, vectorized=True, obs="box"):
+        self.T, self.E, self.OD, self.vec, self.obs = T, E, OD, vectorized, obs
+        self.name = f"ppo-gae-T{T}-E{E}-od{OD}" + ("" if vectorized else "-nonvec") + ("" if obs == "box" else f"-{obs}")
+        self.bounds = {"T": T, "num_envs": E, "obs_dim": OD, "vectorized": vectorized, "observation_space": obs,
                        "symbolic": "rewards, values, dones, next_done, bootstrap value, log-probs, obs/action labels, gamma, gae_lambda"}
         self._agent = None
 
     def agent(self):
         if self._agent is None:
-            self._agent = PPO(spaces.Box(-1, 1, (self.OD,)), spaces.Discrete(2), share_encoders=False)
+            self._agent = PPO(obs_space(self.obs, self.OD), spaces.Discrete(2), share_encoders=False)
         return self._agent
 
     def run(self, v):
@@ -101,16 +137,16 @@ class PPOGae(Case):
         require(ppo_mod, "get_experiences_samples")
         require(agent, "critic", "gamma", "gae_lambda")
         shp = (E,) if self.vec else ()
-        S = [v.array(f"s{t}", shp + (OD,)) for t in range(T)]
+        S = [mk_obs(v, f"s{t}", shp, self.obs, OD) for t in range(T)]
         AC = [v.array(f"a{t}", shp) for t in range(T)]
         LP = [v.array(f"lp{t}", shp) for t in range(T)]
         R = [v.array(f"r{t}", shp) for t in range(T)]
         D = [v.array(f"d{t}", shp, "flag") for t in range(T)]
         VA = [v.array(f"v{t}", shp) for t in range(T)]
-        NS = v.array("ns", shp + (OD,))
+        NS = mk_obs(v, "ns", shp, self.obs, OD)
         ND = v.array("nd", shp, "flag")
         gamma, lam = v.real("gamma"), v.real("lam")
-        distinct(v, [x for t in range(T) for x in elems(S[t])], "observation labels pairwise distinct")
+        distinct(v, [x for t in range(T) for x in obs_row(S[t])], "observation labels pairwise distinct")
         nE = E if self.vec else 1
         critic = StubNet(v, "critic", lambda x: (batch_of(x), 1))
         cap = {}
@@ -137,7 +173,7 @@ class PPOGae(Case):
         # the critic must have been asked for the value of the final next observation
         obs = []
         cin = critic.calls[0][0] if critic.calls else None
-        obs.append(Ob("bootstrap-from-next-obs", cin is not None and all_eq(cin, NS), site="PPO.learn/bootstrap-input"))
+        obs.append(Ob("bootstrap-from-next-obs", cin is not None and all_eq(obs_row(cin), obs_row(NS)), site="PPO.learn/bootstrap-input"))
         g = lambda arr, t, e: val(arr[t], e) if self.vec else val(arr[t])
         nvt = critic.calls[0][3]
         A = gae_reference(T, nE, lambda t, e: g(R, t, e), lambda t, e: g(VA, t, e), lambda t, e: g(D, t, e),
@@ -148,7 +184,7 @@ class PPOGae(Case):
         expected, expected_wrong = {}, {}
         for t in range(T):
             for e in range(nE):
-                srow = tuple(elems(S[t][e] if self.vec else S[t]))
+                srow = tuple(obs_row(S[t], e) if self.vec else obs_row(S[t]))
                 base = srow + (g(AC, t, e), g(LP, t, e))
                 expected[(t, e)] = base + (A[t][e], A[t][e] + g(VA, t, e), g(VA, t, e))
                 expected_wrong[(t, e)] = base + (Awrong[t][e], Awrong[t][e] + g(VA, t, e), g(VA, t, e))
@@ -162,7 +198,7 @@ class PPOGae(Case):
 
 
 def batch_of(x):
-    return x.shape[0]
+    return nrows(x)
 
 
 def distinct(v, xs, text):
@@ -182,17 +218,17 @@ class IPPOGae(Case):
     assumptions = ("done flags and next_done are 0/1", "observation labels pairwise distinct (rows are identified by their observation)")
     outside = ("minibatch loop, losses, optimisers (after the capture point)", "heterogeneous groups are run one group at a time")
 
-    def __init__(self, T, E, A, OD=1):
-        self.T, self.E, self.A, self.OD = T, E, A, OD
-        self.name = f"ippo-gae-T{T}-E{E}-A{A}-od{OD}"
-        self.bounds = {"T": T, "num_envs": E, "homogeneous_agents": A, "obs_dim": OD,
+    def __init__(self, T, E, A, OD=1, obs="box"):
+        self.T, self.E, self.A, self.OD, self.obs = T, E, A, OD, obs
+        self.name = f"ippo-gae-T{T}-E{E}-A{A}-od{OD}" + ("" if obs == "box" else f"-{obs}")
+        self.bounds = {"T": T, "num_envs": E, "homogeneous_agents": A, "obs_dim": OD, "observation_space": obs,
                        "symbolic": "per (agent,t,env): reward, value, done, log-prob, obs/action labels; next_done, bootstrap values, gamma, gae_lambda"}
         self._agent = None
 
     def agent(self):
         if self._agent is None:
             ids = [f"ag_{i}" for i in range(self.A)]
-            self._agent = IPPO([spaces.Box(-1, 1, (self.OD,))] * self.A, [spaces.Discrete(2)] * self.A, agent_ids=ids)
+            self._agent = IPPO([obs_space(self.obs, self.OD)] * self.A, [spaces.Discrete(2)] * self.A, agent_ids=ids)
         return self._agent
 
     def run(self, v):
@@ -202,18 +238,18 @@ class IPPOGae(Case):
         require(ippo_mod, "get_experiences_samples")
         require(agent, "critics", "gamma", "gae_lambda")
         # exactly the per-agent lists of per-step arrays that train_multi_agent_on_policy builds
-        S = {a: [v.array(f"s_{a}_{t}", (E, OD)) for t in range(T)] for a in ids}
+        S = {a: [mk_obs(v, f"s_{a}_{t}", (E,), self.obs, OD) for t in range(T)] for a in ids}
         AC = {a: [v.array(f"a_{a}_{t}", (E, 1)) for t in range(T)] for a in ids}
         LP = {a: [v.array(f"lp_{a}_{t}", (E, 1)) for t in range(T)] for a in ids}
         R = {a: [v.array(f"r_{a}_{t}", (E,)) for t in range(T)] for a in ids}
         D = {a: [v.array(f"d_{a}_{t}", (E,), "flag") for t in range(T)] for a in ids}
         VA = {a: [v.array(f"v_{a}_{t}", (E, 1)) for t in range(T)] for a in ids}
-        NS = {a: v.array(f"ns_{a}", (E, OD)) for a in ids}
+        NS = {a: mk_obs(v, f"ns_{a}", (E,), self.obs, OD) for a in ids}
         ND = {a: v.array(f"nd_{a}", (E,), "flag") for a in ids}
         gamma, lam = v.real("gamma"), v.real("lam")
-        labels = [x for a in ids for t in range(T) for x in elems(S[a][t])]
+        labels = [x for a in ids for t in range(T) for x in obs_row(S[a][t])]
         distinct(v, labels, "observation labels pairwise distinct")
-        distinct(v, [x for a in ids for x in elems(NS[a])], None)
+        distinct(v, [x for a in ids for x in obs_row(NS[a])], None)
         critic = StubNet(v, "critic", lambda x: (batch_of(x), 1))
         cap = {}
 
@@ -237,14 +273,14 @@ class IPPOGae(Case):
         if not critic.calls:
             raise HarnessError("critic was not called before the capture point")
         cin, _, _, cout = critic.calls[0]
-        nrows = cin.shape[0]
-        obs.append(Ob("bootstrap/critic-sees-every-final-next-obs", nrows == A * E, site="IPPO._learn_individual/bootstrap-input"))
+        nr = nrows(cin)
+        obs.append(Ob("bootstrap/critic-sees-every-final-next-obs", nr == A * E, site="IPPO._learn_individual/bootstrap-input"))
 
         def next_value(a, e):
             # the critic's output for the row that holds agent a's final next observation in env e
             r = None
-            for i in reversed(range(nrows)):
-                hit = all_eq(cin[i], NS[a][e])
+            for i in reversed(range(nr)):
+                hit = all_eq(obs_row(cin, i), obs_row(NS[a], e))
                 r = val(cout, i, 0) if r is None else ite(hit, val(cout, i, 0), r)
             return r
 
@@ -255,7 +291,7 @@ class IPPOGae(Case):
                                  lambda e: next_value(a, e), gamma, lam)
             for t in range(T):
                 for e in range(E):
-                    srow = tuple(elems(S[a][t][e]))
+                    srow = tuple(obs_row(S[a][t], e))
                     labels_exp[(a, t, e)] = srow + (val(AC[a][t], e, 0), val(LP[a][t], e, 0), val(VA[a][t], e, 0))
                     est_exp[(a, t, e)] = srow + (Aref[t][e], Aref[t][e] + val(VA[a][t], e, 0))
         # (i) recorded quantities (action, old log-prob, old value) sit on the row of their own observation
@@ -265,9 +301,208 @@ class IPPOGae(Case):
         return obs
 
 
+# --------------------------------------------------------------------------- rollout collection (training loops)
+
+import agilerl.training.train_on_policy as top_mod
+import agilerl.training.train_multi_agent_on_policy as tmop_mod
+from symx.shim import ShimNumpy
+from symx.tensor import _filled
+
+
+class _Bar:
+    def update(self, *a, **k):
+        pass
+
+    def close(self):
+        pass
+
+
+def _np_zeros_obj(shape, *a, **k):
+    shape = (shape,) if isinstance(shape, int) else tuple(shape)
+    return _filled(shape, 0)
+
+
+def either(a, b):
+    """episode ended: terminated or truncated (mode-agnostic, non-forking)"""
+    return disj(a, b)
+
+
+class PPOCollect(Case):
+    """the rollout-collection loop of train_on_policy: what it hands to agent.learn"""
+    functions = (top_mod.train_on_policy,)
+    stubs = ("environment = scripted vector env returning symbolic observations, rewards, terminated and truncated flags",
+             "agent = duck agent: get_action returns fresh symbols per step, learn() captures its argument and stops the run",
+             "tqdm.trange / print of agilerl.training.train_on_policy silenced; np.zeros -> object zeros (sym modes)")
+    outside = ("evaluation, tournament/mutation, checkpoints, logging (after the first learn call)",)
+    site = "train_on_policy/rollout"
+
+    def __init__(self, T, E):
+        self.T, self.E = T, E
+        self.name = f"ppo-collect-T{T}-E{E}"
+        self.bounds = {"T": T, "num_envs": E, "symbolic": "observations, actions, log-probs, values, rewards, terminated and truncated flags of every step and env"}
+
+    def run(self, v):
+        T, E = self.T, self.E
+        OBS = [v.array(f"o{t}", (E, 1)) for t in range(T + 1)]          # o0 = reset obs, o{t+1} = next obs of step t
+        ACT = [v.array(f"a{t}", (E,)) for t in range(T)]
+        LP = [v.array(f"lp{t}", (E,)) for t in range(T)]
+        VAL = [v.array(f"v{t}", (E,)) for t in range(T)]
+        REW = [v.array(f"r{t}", (E,)) for t in range(T)]
+        TERM = [v.array(f"term{t}", (E,), "bool") for t in range(T)]
+        TRUNC = [v.array(f"trunc{t}", (E,), "bool") for t in range(T)]
+        cap, seen_obs, seen_act = {}, [], []
+
+        class Env:
+            num_envs = E
+
+            def reset(self, *a, **k):
+                return OBS[0], {}
+
+            def step(self, action):
+                t = len(seen_act)
+                seen_act.append(action)
+                return OBS[t + 1], REW[t], TERM[t], TRUNC[t], {}
+
+        class Agent:
+            steps = [0]
+            learn_step = T * E
+            action_space = spaces.Discrete(2)
+            scores = []
+            fitness = []
+
+            def set_training_mode(self, m):
+                pass
+
+            def get_action(self, state, action_mask=None):
+                t = len(seen_obs)
+                seen_obs.append(state)
+                return ACT[t], LP[t], v.array(f"ent{t}", (E,)), VAL[t]
+
+            def learn(self, experiences):
+                cap["exp"] = experiences
+                raise Capture()
+
+        patches = [(top_mod, "trange", lambda *a, **k: _Bar()), (top_mod, "print", lambda *a, **k: None)]
+        if v.mode != "real":
+            patches.append((top_mod, "np", ShimNumpy({"zeros": _np_zeros_obj})))
+        with patched(*patches):
+            try:
+                top_mod.train_on_policy(Env(), "stub-env", "PPO", [Agent()], max_steps=T * E, evo_steps=T * E, verbose=False)
+            except Capture:
+                pass
+        if "exp" not in cap:
+            raise HarnessError("agent.learn was not reached")
+        st, ac, lp, rw, dn, va, ns, nd = cap["exp"]
+        obs = [Ob("rollout-length", all(len(x) == T for x in (st, ac, lp, rw, dn, va)))]
+        for t in range(T):
+            for e in range(E):
+                obs.append(Ob(f"t{t}e{e}/policy-acts-on-current-observation", all_eq(seen_obs[t][e], OBS[t][e])))
+                obs.append(Ob(f"t{t}e{e}/stored-obs-action-logp-value-reward-belong-to-this-step",
+                              conj(all_eq(st[t][e], OBS[t][e]), eq(val(ac[t], e), val(ACT[t], e)), eq(val(lp[t], e), val(LP[t], e)),
+                                   eq(val(va[t], e), val(VAL[t], e)), eq(val(rw[t], e), val(REW[t], e)), eq(val(seen_act[t], e), val(ACT[t], e)))))
+                ended = either(val(TERM[t], e), val(TRUNC[t], e))
+                nxt = val(dn[t + 1], e) if t + 1 < T else val(nd, e)
+                obs.append(Ob(f"t{t}e{e}/episode-end-(terminated-or-truncated)-is-the-next-done-flag", eq(nxt != 0, ended),
+                              site="train_on_policy/done-flags"))
+                obs.append(Ob(f"t{t}e{e}/twin/done-ignores-truncation", eq(nxt != 0, val(TERM[t], e)), expect="sat"))
+        for e in range(E):
+            obs.append(Ob(f"e{e}/bootstrap-observation-is-the-last-next-observation", all_eq(ns[e], OBS[T][e])))
+        return obs
+
+
+class IPPOCollect(Case):
+    """the rollout-collection loop of train_multi_agent_on_policy"""
+    functions = (tmop_mod.train_multi_agent_on_policy,)
+    stubs = PPOCollect.stubs
+    outside = PPOCollect.outside
+    site = "train_multi_agent_on_policy/rollout"
+
+    def __init__(self, T, E, A):
+        self.T, self.E, self.A = T, E, A
+        self.name = f"ippo-collect-T{T}-E{E}-A{A}"
+        self.bounds = {"T": T, "num_envs": E, "agents": A, "symbolic": "per agent: observations, actions, log-probs, values, rewards, terminated and truncated flags of every step and env"}
+
+    def run(self, v):
+        T, E, A = self.T, self.E, self.A
+        ids = [f"ag_{i}" for i in range(A)]
+        per = lambda name, shp, kind="real": [{a: v.array(f"{name}{t}_{a}", shp, kind) for a in ids} for t in range(T)]
+        OBS = [{a: v.array(f"o{t}_{a}", (E, 1)) for a in ids} for t in range(T + 1)]
+        ACT, LP, VAL, REW = per("a", (E,)), per("lp", (E,)), per("v", (E,)), per("r", (E,))
+        TERM, TRUNC = per("term", (E,), "bool"), per("trunc", (E,), "bool")
+        cap, seen_obs, seen_act = {}, [], []
+
+        class Env:
+            num_envs = E
+
+            def reset(self, *a, **k):
+                return OBS[0], {}
+
+            def step(self, action):
+                t = len(seen_act)
+                seen_act.append(action)
+                return OBS[t + 1], REW[t], TERM[t], TRUNC[t], {}
+
+        class Agent:
+            steps = [0]
+            learn_step = T * E
+            agent_ids = ids
+            shared_agent_ids = ["ag"]
+            action_space = {a: spaces.Discrete(2) for a in ids}
+            actors = []
+            scores = []
+            fitness = []
+
+            def set_training_mode(self, m):
+                pass
+
+            def get_homo_id(self, a):
+                return "ag"
+
+            def get_action(self, obs, infos=None):
+                t = len(seen_obs)
+                seen_obs.append(obs)
+                return ACT[t], LP[t], {a: v.array(f"ent{t}_{a}", (E,)) for a in ids}, VAL[t]
+
+            def learn(self, experiences):
+                cap["exp"] = experiences
+                raise Capture()
+
+        patches = [(tmop_mod, "trange", lambda *a, **k: _Bar()), (tmop_mod, "print", lambda *a, **k: None)]
+        if v.mode != "real":
+            from symx.shim import ShimFloat
+            patches += [(tmop_mod, "np", ShimNumpy({"zeros": _np_zeros_obj})), (tmop_mod, "float", ShimFloat)]
+        with patched(*patches):
+            try:
+                tmop_mod.train_multi_agent_on_policy(Env(), "stub-env", "IPPO", [Agent()], sum_scores=True, max_steps=T * E,
+                                                     evo_steps=T * E, verbose=False)
+            except Capture:
+                pass
+        if "exp" not in cap:
+            raise HarnessError("agent.learn was not reached")
+        st, ac, lp, rw, dn, va, ns, nd = cap["exp"]
+        obs = [Ob("rollout-length", all(len(x[a]) == T for x in (st, ac, lp, rw, dn, va) for a in ids))]
+        for a in ids:
+            for t in range(T):
+                for e in range(E):
+                    obs.append(Ob(f"{a}t{t}e{e}/policy-acts-on-current-observation", all_eq(seen_obs[t][a][e], OBS[t][a][e])))
+                    obs.append(Ob(f"{a}t{t}e{e}/stored-obs-action-logp-value-reward-belong-to-this-agent-and-step",
+                                  conj(all_eq(st[a][t][e], OBS[t][a][e]), eq(val(ac[a][t], e), val(ACT[t][a], e)),
+                                       eq(val(lp[a][t], e), val(LP[t][a], e)), eq(val(va[a][t], e), val(VAL[t][a], e)),
+                                       eq(val(rw[a][t], e), val(REW[t][a], e)), eq(val(seen_act[t][a], e), val(ACT[t][a], e)))))
+                    ended = either(val(TERM[t][a], e), val(TRUNC[t][a], e))
+                    nxt = val(dn[a][t + 1], e) if t + 1 < T else val(nd[a], e)
+                    obs.append(Ob(f"{a}t{t}e{e}/episode-end-(terminated-or-truncated)-is-this-agent's-next-done-flag", eq(nxt != 0, ended),
+                                  site="train_multi_agent_on_policy/done-flags"))
+            for e in range(E):
+                obs.append(Ob(f"{a}e{e}/bootstrap-observation-is-the-last-next-observation", all_eq(ns[a][e], OBS[T][a][e])))
+        return obs
+
+
 def cases(tier):
     cs = [PPOGae(3, 2), PPOGae(2, 1), PPOGae(3, 1, vectorized=False), PPOGae(1, 2),
-          IPPOGae(2, 2, 2), IPPOGae(2, 2, 1), IPPOGae(1, 2, 2), IPPOGae(2, 1, 2)]
+          IPPOGae(2, 2, 2), IPPOGae(2, 2, 1), IPPOGae(1, 2, 2), IPPOGae(2, 1, 2),
+          IPPOGae(2, 2, 2, obs="tuple"), IPPOGae(2, 2, 2, obs="dict"), PPOGae(2, 2, obs="tuple"), PPOGae(2, 2, obs="dict"),
+          PPOCollect(2, 2), PPOCollect(3, 1), IPPOCollect(2, 1, 2), IPPOCollect(1, 2, 2)]
     if tier == "thorough":
         cs += [PPOGae(5, 3), PPOGae(4, 2, OD=2), PPOGae(5, 1, vectorized=False)]
     return cs
